@@ -23,6 +23,7 @@ from ..source import (
     AnalysisError,
     Project,
     ancestors,
+    assign_targets,
     body_walk,
     dotted,
     enclosing_func,
@@ -76,6 +77,7 @@ def run(chk: Check, proj: Project) -> None:
     s3_handlers(chk, proj, w)
     s3b_live_iteration(chk, proj, w)
     s3c_queue_items_immutable(chk, proj, w)
+    s3d_annotation(chk, proj, w)
     chk.call_sites = w.cg.n_calls
 
 
@@ -606,6 +608,85 @@ def s3b_live_iteration(chk: Check, proj: Project, w) -> None:
             else:
                 chk.holds("S3b", key, m.loc(loop), "iterates a snapshot" if snapshot else "the loop body does not remove from the iterated registry")
     chk.floor("S3b", n, 2)
+
+
+_FIXTURE_LOST_UPDATE = "def h(err, label):\n    comps = getattr(err, '_components', [])\n    comps.insert(0, label)\n    raise err\n"
+_MUTATORS = ("insert", "append", "extend", "add", "update", "setdefault", "appendleft")
+
+
+def lost_default_updates(f: ast.AST) -> List[Tuple[ast.AST, ast.AST]]:
+    """`v = getattr(o, a, <fresh container>)` / `v = d.get(k, <fresh container>)` followed by an in-place mutation of `v`
+    that is never stored back: when the attribute / key is absent the update is made on a throw-away object."""
+    out = []
+    for st in stmts(f):
+        if not (isinstance(st, (ast.Assign, ast.AnnAssign)) and isinstance(st.value, ast.Call)):
+            continue
+        c = st.value
+        fresh = None
+        if norm(c.func) == "getattr" and len(c.args) == 3:
+            fresh, owner, slot = c.args[2], norm(c.args[0]), c.args[1]
+        elif isinstance(c.func, ast.Attribute) and c.func.attr == "get" and len(c.args) == 2:
+            fresh, owner, slot = c.args[1], norm(c.func.value), c.args[0]
+        if fresh is None or not (isinstance(fresh, (ast.List, ast.Dict, ast.Set)) or (isinstance(fresh, ast.Call) and norm(fresh.func) in ("list", "dict", "set", "deque"))):
+            continue
+        tg = [t for t, _v in assign_targets(st) if isinstance(t, ast.Name)]
+        if len(tg) != 1:
+            continue
+        v = tg[0].id
+        muts = [x for x in stmts(f) if isinstance(x, ast.Expr) and isinstance(x.value, ast.Call) and isinstance(x.value.func, ast.Attribute) and x.value.func.attr in _MUTATORS and norm(x.value.func.value) == v and x.lineno > st.lineno]
+        stored = [x for x in stmts(f) if isinstance(x, (ast.Assign, ast.AnnAssign)) and x.lineno > st.lineno and any(isinstance(t, (ast.Attribute, ast.Subscript)) and norm(t).startswith(owner) for t, _v in assign_targets(x))
+                  and (norm(x.value) == v if x.value is not None else False)]
+        redefined = [x for x in stmts(f) if isinstance(x, (ast.Assign, ast.AnnAssign)) and x.lineno > st.lineno and any(isinstance(t, ast.Name) and t.id == v for t, _v in assign_targets(x))]
+        for mu in muts:
+            if not stored and not any(r.lineno < mu.lineno for r in redefined):
+                out.append((st, mu))
+    return out
+
+
+def s3d_annotation(chk: Check, proj: Project, w) -> None:
+    chk.rule("S3d", "the component path reaches the exception: no in-place update of a throw-away default (`getattr(err, a, [])` mutated but never stored back); the first line of the message is stripped only when it IS the library's own prefix")
+    if len(lost_default_updates(ast.parse(_FIXTURE_LOST_UPDATE).body[0])) != 1:
+        raise AnalysisError("lost-update lint lost its positive fixture")
+    em = proj.mod("util.exception")
+    n = 0
+    for q in ("component_error_message", "add_slot_to_error_message"):
+        f = em.func(q)
+        chk.analysed(fkey(em, f))
+        n += 1
+        lost = lost_default_updates(f)
+        chk.ob("S3d", f"util.exception:{q}:annotation-stored-on-the-exception", em.loc(lost[0][1]) if lost else em.loc(f), not lost,
+               "every update of the component path is made on (or stored back to) the exception object" if not lost else
+               f"`{short(lost[0][1])}` updates the object returned by `{short(lost[0][0].value)}`: for an exception that carries no path yet this is a throw-away default, so the `Comp(slot:name)` entry is lost from the error message")
+        # the label must actually be added: an insert/append on err._components or an assignment that includes the path
+        adds = [x for x in ast.walk(f) if (isinstance(x, ast.Call) and isinstance(x.func, ast.Attribute) and x.func.attr in ("insert", "append") and "_components" in norm(x.func.value))
+                or (isinstance(x, ast.Assign) and any("_components" in norm(t) for t in x.targets) and isinstance(x.value, (ast.List, ast.BinOp)))]
+        labelled = [x for x in adds if any(isinstance(y, (ast.Name, ast.JoinedStr, ast.Starred)) for y in ast.walk(x.args[-1] if isinstance(x, ast.Call) else x.value))]
+        if not lost:
+            chk.ob("S3d", f"util.exception:{q}:adds-its-label", em.loc(labelled[0]) if labelled else em.loc(f), bool(labelled), "the handler adds its own label to err._components")
+    chk.floor("S3d", n, 2)
+    f = em.func("component_error_message")
+    strips = [x for x in stmts(f) if isinstance(x, ast.Assign) and any(isinstance(c, ast.Call) and isinstance(c.func, ast.Attribute) and c.func.attr in ("split", "partition", "splitlines") for c in ast.walk(x.value))]
+    pre = [x for x in stmts(f) if isinstance(x, ast.Assign) and isinstance(x.value, ast.JoinedStr) and x.value.values and isinstance(x.value.values[0], ast.Constant)]
+    if not strips or not pre:
+        chk.undecided("S3d", "util.exception:component_error_message:strip-only-own-prefix", em.loc(f), "message strip / prefix construction not recognised")
+        return
+    prefix_txt = str(pre[0].value.values[0].value)
+    for x in strips:
+        atoms = cond_atoms(x)
+        guard = None
+        for t, pol in atoms:
+            if pol and ".startswith(" in t:
+                try:
+                    e = ast.parse(t, mode="eval").body
+                except SyntaxError:
+                    continue
+                if isinstance(e, ast.Call) and e.args:
+                    okf, val = proj.try_fold(em, e.args[0])
+                    if okf and isinstance(val, str) and val and prefix_txt.startswith(val):
+                        guard = t
+        chk.ob("S3d", "util.exception:component_error_message:strip-only-own-prefix", em.loc(x), guard is not None,
+               f"the first line is removed only under `{guard}` (the prefix this function prepends)" if guard else
+               f"`{short(x)}` removes the first line of the message without testing that it is the library's prefix (the `not components` test above it can never be true: the path always contains this component): a multi-line user message loses its first line")
 
 
 def s3c_queue_items_immutable(chk: Check, proj: Project, w) -> None:
